@@ -157,7 +157,29 @@ class Normalizer:
             return Rat(-z.n, z.d)
         if h in ("i2f", "ref_to"):
             return self.rat(t[1])
+        if h in ("max", "min"):
+            parts = self._extreme_parts(t)
+            if len(parts) == 1:
+                return self.rat(next(iter(parts.values())))
         return Rat(Poly.var(self.atom_key(t)))
+
+    def _extreme_parts(self, t):
+        """{key: subterm} of the flattened, de-duplicated arguments of a max/min; for max a zero argument is dropped when an
+        absolute value is among the others (max(0, |a|, ..) = max(|a|, ..))"""
+        h = t[0]
+        parts = {}
+        stack = list(t[1:])
+        while stack:
+            x = stack.pop()
+            if isinstance(x, tuple) and x and x[0] == h:
+                stack.extend(x[1:])
+            else:
+                parts.setdefault(self.key(x), x)
+        if h == "max":
+            zero = Rat(Poly()).key()
+            if zero in parts and any(isinstance(x, tuple) and x and x[0] == "abs" for x in parts.values()):
+                del parts[zero]
+        return parts
 
     def key(self, t):
         if not isinstance(t, tuple) or not t:
@@ -166,6 +188,8 @@ class Normalizer:
             return tuple(self.key(x) for x in t)
         if t[0] in ("c", "+", "-", "*", "/", "neg", "i2f"):
             return self.rat(t).key()
+        if t[0] in ("arg", "pre", "select", "get", "abs", "max", "min", "sqrt", "lv", "ivar", "ret", "proj", "accum", "pick", "ucall"):
+            return self.rat(t).key()  # a value: `x` and `(x + x + x) / 3` must get the same key
         return self.atom_key(t)
 
     def atom_key(self, t):
@@ -173,15 +197,8 @@ class Normalizer:
         if h == "abs":
             return ("abs", self.rat(t[1]).key(abs_sign=True))
         if h in ("max", "min"):
-            parts = []
-            stack = list(t[1:])
-            while stack:
-                x = stack.pop()
-                if isinstance(x, tuple) and x and x[0] == h:
-                    stack.extend(x[1:])
-                else:
-                    parts.append(self.key(x))
-            return (h,) + tuple(sorted(set(parts), key=repr))
+            parts = self._extreme_parts(t)
+            return (h,) + tuple(sorted(parts, key=repr))
         if h in ("arg", "pre", "bot", "ivar"):
             return t
         if h in CMP or h == "not":
